@@ -201,7 +201,47 @@ func funcForms(fn *ssa.Function) (noPkg, shortPkg, fullPkg string) {
 	return fn.Name() + suffix, short + "." + fn.Name() + suffix, path + "." + fn.Name() + suffix
 }
 
+// instanceForms: names of an instantiated generic method with its type arguments spelled out,
+// e.g. (*Pool[file]).Acquire, (*core.Pool[core.Node[model.File]]).Release.
+func instanceForms(fn *ssa.Function) (noPkg, shortPkg string) {
+	f := fn
+	for f.Parent() != nil {
+		f = f.Parent()
+	}
+	if len(f.TypeArgs()) == 0 || f.Signature.Recv() == nil {
+		return "", ""
+	}
+	a, b, _ := funcForms(fn)
+	own := fnPkgPath(fn)
+	qual := func(p *types.Package) string {
+		if p.Path() == own {
+			return ""
+		}
+		return p.Name()
+	}
+	var as []string
+	for _, t := range f.TypeArgs() {
+		as = append(as, strings.ReplaceAll(types.TypeString(t, qual), " ", ""))
+	}
+	args := "[" + strings.Join(as, ",") + "]"
+	ins := func(s string) string {
+		i := strings.Index(s, ")")
+		return s[:i] + args + s[i:]
+	}
+	return ins(a), ins(b)
+}
+
 func matchFuncName(pattern, specPkg string, fn *ssa.Function) bool {
+	if strings.Contains(pattern, "[") {
+		ia, ib := instanceForms(fn)
+		if ia == "" {
+			return false
+		}
+		if pattern == ib {
+			return true
+		}
+		return pattern == ia && (specPkg == "" || specPkg == "*" || specPkg == fnPkgPath(fn))
+	}
 	a, b, c := funcForms(fn)
 	if pattern == c || pattern == b {
 		return true
@@ -223,7 +263,9 @@ func (p *Program) funcSpec(fn *ssa.Function) *FuncSpec {
 			continue
 		}
 		if matchFuncName(s.Name, s.Pkg, fn) {
-			if found == nil || (found.Trusted && !s.Trusted) {
+			better := found == nil || (strings.Contains(s.Name, "[") && !strings.Contains(found.Name, "[")) ||
+				(found.Trusted && !s.Trusted && strings.Contains(s.Name, "[") == strings.Contains(found.Name, "["))
+			if better {
 				found = s
 			}
 		}
